@@ -137,6 +137,8 @@ const char* String::findLastOf(const char* chars) const {return String::findLast
 
 String& String::replace(const String& needle, const String& replacement)
 {
+  if(needle.data->len == 0) // nothing to look for (and strstr would "find" it at every position, forever)
+    return *this;
   const char* p = *this;
   const char* match = strstr(p, needle);
   if(!match)
